@@ -46,6 +46,8 @@ impl Invalidates for KvKey {
             1 => self.key == other.key && self.ver > other.ver,
             2 => false,
             3 => true,
+            // key 0 clears everything pending, other keys replace themselves
+            4 => self.key == 0 || self.key == other.key,
             _ => false,
         }
     }
